@@ -26,6 +26,9 @@ ASSUMPTIONS = [
     "stdout is replaced by a capturing stream (isatty() true/false; fileno() = slave of a real "
     "pty for termios); time.sleep / perf_counter-driven waits are virtual",
     "old API: expected colours of a frame are read back from the generated file with Pillow",
+    "the terminal size is a substituted get_terminal_size() in the draw traces; the real one is bound "
+    "separately (TermSizeEnv.tla: 48 process environments - which std stream is the terminal, "
+    "controlling terminal or not, COLUMNS/LINES exported or not - each arranged with a pty)",
 ]
 
 
@@ -247,6 +250,11 @@ def main(rep: Report, replay: dict | None) -> None:
     )
     if replay:
         sc = replay["scenario"]
+        if sc.get("kind") == "termenv":
+            from .. import termenv
+
+            termenv.run(rep, only=sc["env"])
+            return
         if sc.get("kind") == "table":
             r = run_case(sc["case"])
             rep.evaluations += 1
@@ -261,6 +269,11 @@ def main(rep: Report, replay: dict | None) -> None:
         draw_model.check(rep)
         draw_model.check_old(rep)
         validation_table(rep)
+        # where the terminal size all of the above is validated against comes from: the real
+        # get_terminal_size() / draw() in every process environment of TermSizeEnv.tla
+        from .. import termenv
+
+        termenv.run(rep)
         rng = random.Random(rep.seed * 977 + 3)
         cases = new_cases(rng, rep.tier) + old_cases(rng, rep.tier)
     traces, owners = [], []
